@@ -235,3 +235,37 @@ fn c10_v2s_wrong_unit_update_panics() {
     let _ = s.update();
     kani::cover!(true, "unreach: returned normally");
 }
+
+//@ob fn="<VelocityToState<G,E> as Updatable>::update" at=src/streams/converters.rs:278 prop=C10 clause="how the computed terms are combined (Quantity * and / replaced by recording stand-ins, the + is the crate's real Quantity addition): from the second sample on the stored acceleration is the FIRST quotient the code computed ((v_new - v_old)/dt) and the position is (old position, if any) + the ONE product it computed (((v_old + v_new)/2)*dt), bit-identical; exactly two divisions and one multiplication; velocity and time are the sample's"
+#[kani::proof]
+#[kani::stub(<Quantity as Mul<Quantity>>::mul, rec_q_mul)]
+#[kani::stub(<Quantity as Div<Quantity>>::div, rec_q_div)]
+fn c10_v2s_terms_combined() {
+    let d: Datum<Quantity> = kani::any();
+    let mut inp = Scripted::new(Ok(Some(d)));
+    let mut s = any_st(rf(&mut inp));
+    kani::assume(inv(&s) && pre_ok(&s, &Ok(Some(d))));
+    kani::assume(s.update.is_some());
+    let old_pos: Option<Quantity> = match &s.update { Some(u0) => match &u0.update_1 { Some(u1) => Some(u1.pos), None => None }, None => None };
+    rec_reset();
+    let r = s.update();
+    assert!(r == Ok(()));
+    assert!(rec_counts() == (2, 1));
+    match &s.update {
+        Some(u0) => {
+            assert!(u0.last_update_time == d.time && u0.vel.beq(&d.value));
+            match &u0.update_1 {
+                Some(u1) => {
+                    assert!(fsame(u1.acc.value, rec_div(0)));
+                    match old_pos {
+                        Some(p) => assert!(fsame(u1.pos.value, p.value + rec_mul(0))),
+                        None => assert!(fsame(u1.pos.value, rec_mul(0))),
+                    }
+                }
+                None => assert!(false),
+            }
+        }
+        None => assert!(false),
+    }
+    reach!();
+}
